@@ -302,6 +302,53 @@ def pKmz0 : P String := do
   pure (okLine #[kmZ0 FloatFns zm ws us L, kmPhiM FloatFns zm L, kmPhiC FloatFns zm L, kmPsiM FloatFns zm L,
     kmM FloatFns zm ws us L, kmN zm L])
 
+/-- `cachehist <keyfield bits x12> <resGet> <resPut> <atomic> <guarded> <ndflt> (dom halo)* <nops> ops…`
+ops: `R v0 … v11 hn` request, `C v0 … v11 hn` interrupted store, `X` restart.
+answers one token per request: `H` hit, `M` miss, `E` error; the result is modelled by the
+request's determining values (a hit is marked `H!` if it returns another request's result). -/
+def pCacheHist : P String := do
+  let mut kf : List Fld := []
+  for f in Fld.all do
+    if (← pBool) then kf := kf ++ [f]
+  let rg ← pBool
+  let rp ← pBool
+  let aw ← pBool
+  let gd ← pBool
+  let cfg : CacheCfg := { keyFields := kf, haloResolvedAtGet := rg, haloResolvedAtPut := rp, atomicWrite := aw, guardedLoad := gd }
+  let nd ← pNat
+  let mut tbl : List (Nat × Nat) := []
+  for _ in [0:nd] do
+    let a ← pNat
+    let b ← pNat
+    tbl := (a, b) :: tbl
+  let dflt : Nat → Nat := fun d => match tbl.find? (fun p => p.1 == d) with
+    | some p => p.2
+    | none => 1000000 + d
+  let nops ← pNat
+  let mut ops : List COp := []
+  for _ in [0:nops] do
+    let t ← tok
+    if t == "X" then ops := ops ++ [COp.restart]
+    else
+      let vs ← pNats 12
+      let hn ← pBool
+      let r : CReq := { val := fun f => vs.getD (Fld.all.idxOf f) 0, haloNone := hn }
+      if t == "R" then ops := ops ++ [COp.request r]
+      else if t == "C" then ops := ops ++ [COp.crash r]
+      else if t == "T" then ops := ops ++ [COp.truncate r]
+      else failure
+  pEnd
+  let solve : CReq → List Nat := fun r => r.determ dflt
+  let (ans, _) := runHistory cfg dflt solve [] ops
+  let reqs := ops.filterMap (fun o => match o with | .request r => some r | _ => none)
+  let mut out := "ok"
+  for (a, r) in ans.zip reqs do
+    out := out ++ (match a with
+      | .hit res => if res == solve r then " H" else " H!"
+      | .miss _ => " M"
+      | .error => " E")
+  pure out
+
 def dispatch : P String := do
   let op ← tok
   if op == "solve" then pSolve
@@ -317,6 +364,7 @@ def dispatch : P String := do
   else if op == "base" then pBase
   else if op == "km" then pKm
   else if op == "kmz0" then pKmz0
+  else if op == "cachehist" then pCacheHist
   else failure
 
 def handle (line : String) : String :=
